@@ -125,6 +125,20 @@ def handler_program(names):
     return "".join(out)
 
 
+def helper_generic_names():
+    """type parameter names the generator's templates declare themselves (`impl<SvBankT, .., #(#generics,)*>`): a user
+    parameter / associated type of the same name collides (E0403). `Sv`-prefixed names are the reserved namespace; `Error` is
+    the mandatory associated type of every interface."""
+    names = set()
+    for rel, qn, mac, tt, ln in grules.templates():
+        for kind, params in grules.generics_lists(tt):
+            for p in params:
+                rest, _ = grules.strip_interpolations(p)
+                if rest and rest[0]["t"] == "ident" and re.match(r"^[A-Z][A-Za-z0-9]*$", rest[0]["s"]):
+                    names.add(rest[0]["s"])
+    return sorted(n for n in names if not n.startswith("Sv") and n != "Error")
+
+
 def _args(names, ty="String"):
     return "".join(f", {n}: {ty}" for n in names)
 
@@ -219,4 +233,22 @@ def generate(dest_root):
         f.write(MANIFEST.replace("w-argnames", "w-handlernames"))
     with open(os.path.join(d2, "src", "lib.rs"), "w") as f:
         f.write(handler_program(hn))
-    return [d, d2], {"w-argnames": {"names": names}, "w-handlernames": {"names": hn}}
+    # ---- helper type-parameter names as user parameters / associated types (C19)
+    import sys
+    from . import util
+    sys.path.insert(0, os.path.join(util.VERIF, "tools", "gen"))
+    import gen_hygiene
+    tn = helper_generic_names()
+    d3 = os.path.join(dest_root, "w-typarams")
+    os.makedirs(os.path.join(d3, "src", "bin"), exist_ok=True)
+    with open(os.path.join(d3, "Cargo.toml.in"), "w") as f:
+        f.write(MANIFEST.replace("w-argnames", "w-typarams").replace("[lib]\ntest = false\ndoctest = false\n\n", ""))
+    # a fixed control program keeps the package non-empty when the generator declares no unprefixed helper parameter
+    progs = [("control", gen_hygiene.contract_prog("control: a generic contract over `ControlT`", ["ControlT"]))]
+    for n in tn:
+        progs.append((f"c_{n.lower()}", gen_hygiene.contract_prog(f"generic contract whose type parameter is named like the generator's own helper parameter `{n}`", [n])))
+        progs.append((f"i_{n.lower()}", gen_hygiene.iface_prog(f"interface whose associated type is named like the generator's own helper parameter `{n}`", [n])))
+    for name, text in progs:
+        with open(os.path.join(d3, "src", "bin", name + ".rs"), "w") as f:
+            f.write(text)
+    return [d, d2, d3], {"w-argnames": {"names": names}, "w-handlernames": {"names": hn}, "w-typarams": {"names": tn}}
